@@ -5,6 +5,7 @@
 From Coq Require Import ZArith List Bool String.
 From BNP Require Import Base.Prims Model.C03 Corr.C03.
 From BNP Require Import Proofs.C03 Proofs.C03_int Proofs.C03_scatter Proofs.C03_fasta Proofs.C03_read Proofs.C03_main.
+From BNP Require Import Gen.C03 Bridge.C03.
 Import ListNotations.
 Open Scope Z_scope.
 
@@ -139,6 +140,53 @@ Theorem C03_model_ok_written :
     k_err c = 0 /\ k_written c = spec_file (k_fmt c) (k_header c) (k_hist c).
 Proof. exact model_ok_written. Qed.
 Print Assumptions C03_model_ok_written.
+
+(* ---- Source tie: the formulas, constants, strides and conditions regenerated from /repo on this run (Gen/C03.v,
+   written by translate/run.py through translate/gen_c03.py) are the ones the model — and therefore every theorem
+   above — is built from: FASTA line arithmetic (multiline_buffer.from_data), the scatter of join_columns /
+   join_fields, the FASTQ record constants, VCF POS+1 on both write paths, the writer's header condition, the
+   stream loop and the append flag of files._get_buffered_file. ---- *)
+Theorem C03_source_tie :
+  (forall L w s c n l,
+      gen_fasta_n_lines L w = m_fasta_n_lines L w /\ gen_fasta_last_length L w = m_fasta_last_length L w
+      /\ gen_fasta_total s c = m_fasta_total s c /\ gen_fasta_fill w = m_fasta_fill w
+      /\ gen_fasta_entry_step n = m_fasta_entry_step n /\ gen_fasta_first_start = m_fasta_first_start
+      /\ gen_fasta_has_lines n = m_fasta_has_lines n
+      /\ gen_fasta_last_index s = m_fasta_last_index s /\ gen_fasta_last_value l = m_fasta_last_value l
+      /\ gen_fasta_hdr_index s = s /\ gen_fasta_hdr_value n = m_fasta_hdr_value n
+      /\ gen_fasta_assign_order = m_fasta_last_before_header /\ gen_fasta_body_len l = m_fasta_body_len l)
+  /\ (forall c i n (k : nat),
+      gen_join_cell_len c = m_line_len c 0 /\ gen_join_stride_start i n = i /\ gen_join_stride_step i n = n
+      /\ ((1 <= k)%nat -> gen_join_nl_start (Z.of_nat k) = Z.of_nat (m_join_nl_start k)) /\ gen_join_nl_step n = n
+      /\ gen_join_newline = m_newline /\ gen_delimiter = m_sep)
+  /\ (forall f o n,
+      gen_olb_line_len f o = m_line_len f o /\ gen_olb_stride_step n = n /\ gen_olb_body_start o = o
+      /\ gen_olb_hdr_row_start = 0 /\ gen_olb_hdr_col = 0 /\ gen_olb_newline = m_newline)
+  /\ (gen_fastq_offsets = map Z.of_nat m_fastq_offsets /\ gen_fastq_n_lines = Z.of_nat m_fastq_n_lines
+      /\ gen_fastq_header = m_fastq_header /\ gen_fastq_plus = m_fastq_plus
+      /\ gen_fastq_plus_position = Z.of_nat m_fastq_plus_position
+      /\ forall n s q, fastq_texts [n; s; q]
+            = firstn (Z.to_nat gen_fastq_plus_position) [col_text n; col_text s; col_text q] ++ [[gen_fastq_plus]]
+              ++ skipn (Z.to_nat gen_fastq_plus_position) [col_text n; col_text s; col_text q])
+  /\ (forall p, gen_vcf_pos_eager p = p + m_vcf_pos_delta /\ gen_vcf_pos_lazy p = p + m_vcf_pos_delta)
+  /\ gen_vcf_pos_field = "position"%string
+  /\ (forall hh ab hw gz,
+      gen_write_emits_header hh ab hw = m_emits_header hh ab hw /\ gen_stream_skips_empty = m_stream_skips_empty
+      /\ gen_append_flag_a = mode_is_ab_fixed true gz /\ gen_append_flag_w = mode_is_ab_fixed false gz).
+Proof.
+  repeat split; intros;
+    first [ apply b_fasta_n_lines | apply b_fasta_last_length | apply b_fasta_total | apply b_fasta_fill
+          | apply b_fasta_entry_step | apply b_fasta_first_start | apply b_fasta_has_lines | apply b_fasta_last_index
+          | apply b_fasta_last_value | apply b_fasta_hdr_index | apply b_fasta_hdr_value | apply b_fasta_assign_order
+          | apply b_fasta_body_len | apply b_join_cell_len | apply b_join_stride_start | apply b_join_stride_step
+          | apply b_join_nl_start; assumption | apply b_join_nl_step | apply b_join_newline | apply b_delimiter
+          | apply b_olb_line_len | apply b_olb_stride_step | apply b_olb_body_start | apply b_olb_hdr_row_start
+          | apply b_olb_hdr_col | apply b_olb_newline | apply b_fastq_offsets | apply b_fastq_n_lines
+          | apply b_fastq_header | apply b_fastq_plus | apply b_fastq_plus_position | apply b_fastq_texts
+          | apply b_vcf_pos_eager | apply b_vcf_pos_lazy | apply b_vcf_pos_field | apply b_write_emits_header
+          | apply b_stream_skips_empty | apply b_append_flag_a | apply b_append_flag_w ].
+Qed.
+Print Assumptions C03_source_tie.
 
 (* ---- non-vacuity: concrete non-trivial inputs meeting the hypotheses, evaluated by the executable model ---- *)
 Definition ex_r1 : row := [FS (unhex "63687231"); FI 0; FI 999999999999997; FL [1; 22; 333]].
